@@ -1,8 +1,8 @@
 """C14 — work partitioning tiles the function list; fitting stages complete on any ranks."""
 import os, types, itertools
-import common, extract
+import common, extract, mpirun, libgen, fitlib
 
-LEAN_MODULE = "ESRVerif.Props.C14"
+LEAN_MODULE = ["ESRVerif.Props.C14", "ESRVerif.Props.C14b"]
 LEVEL = "proof"
 RULE = ("(N,P,r) triples enumerated exhaustively up to the tier bound for split_idx and get_functions; "
         "non-trivial = P>=2 and N>=1; distinct by (function,N,P)")
@@ -11,7 +11,7 @@ EXPLANATION = ("Lean theorems (unbounded N,P) over the hand model of split_idx/g
 TRUSTED = ["hand model ESRVerif/Model/Partition.lean of split_idx and get_functions (tied by exhaustive correspondence up to the bound)",
            "int(np.ceil(N/float(P))) equals ceiling division for N < 2^53", "sort -V / cat / find of the shell"]
 ASSUMPTIONS = ["atomic mkdir, no partial writes", "ranks are OS processes under the stand-in hub, not a real MPI progress engine"]
-MODELLED = ["utils.py:split_idx", "test_all.py:get_functions"]
+MODELLED = ["utils.py:split_idx", "test_all.py:get_functions", "likelihood.py:Likelihood.__init__"]
 
 
 def _corr_split(ctx, Nmax, Pmax):
@@ -82,12 +82,109 @@ def _corr_getfun(ctx, Nmax, Pmax):
     return len(ops), len(bad)
 
 
+def _constructor_start(ctx, Ps):
+    """the Likelihood constructor with data_dir given, from a fresh directory, under the forced interleaving
+    (all ranks look before any creates) and free-running"""
+    n = 0
+    for P in Ps:
+        for mode in ("forced", "free"):
+            dd = os.path.join(ctx.tmp, "lk_%d_%s" % (P, mode))
+            os.makedirs(dd)
+            sd = dd + "_sync"; os.makedirs(sd)
+            r = mpirun.run(P, [os.path.join(common.HARNESS, "workers", "lik_init.py"), dd, sd, mode], timeout=60,
+                           env_extra=ctx.env(), cwd=ctx.stage, python=common.PY)
+            n += 1
+            ctx.case(("ctor", P, mode), nontrivial=P >= 2)
+            if not r["ok"]:
+                tail = ""
+                for f in r["stdout"]:
+                    t = open(f).read()
+                    if "Error" in t:
+                        tail = t.strip().splitlines()[-1]; break
+                ctx.fail("likelihood-constructor:start-up-race:%s" % mode,
+                         "constructing Likelihood(data_dir=<fresh dir>) on %d ranks (%s start-up interleaving: every rank passes its existence test before any creates) "
+                         "does not complete on every rank: exit codes %s: %s" % (P, mode, r["exit_codes"], tail),
+                         dict(kind="ctor", P=P, mode=mode))
+            import shutil
+            shutil.rmtree(r.get("tmp", ""), ignore_errors=True)
+    return n
+
+
+def _pipeline_rows(ctx, Ps, comp):
+    """the four fitting stages under P ranks: one row per function, row i refers to function i"""
+    import numpy as np
+    lib = libgen.generate(ctx, "core_maths", list(range(1, comp + 1)), P=1, copy="c14_fit")
+    if not lib["ok"]:
+        ctx.disagree("pipeline:generation", "could not generate the library for the stage runs: %s" % lib["res"]["error"])
+        return 0
+    dd = os.path.join(ctx.tmp, "c14_data"); os.makedirs(dd, exist_ok=True)
+    rs = np.random.default_rng(ctx.seed)
+    x = np.linspace(0.5, 3, 25); s = np.full(25, 0.2); y = 1.5 * x + 0.7 + rs.normal(0, 0.2, 25)
+    fitlib.write_data(os.path.join(dd, "d.txt"), x, y, s)
+    nuniq = len(libgen.read_lines(libgen.libfile(lib["dir"], comp, "unique_equations")))
+    nall = len(libgen.read_lines(libgen.libfile(lib["dir"], comp, "all_equations")))
+    uniq = libgen.read_funs(libgen.libfile(lib["dir"], comp, "unique_equations"))
+    ref = None
+    n = 0
+    for P in Ps:
+        r = fitlib.run_pipeline(ctx, lib["copy"], "core_maths", comp, dd, "d.txt", "c14P%d" % P, P=P, seed=ctx.seed, timeout=600)
+        n += 1
+        ctx.case(("pipeline", comp, P), nontrivial=P >= 2)
+        rp = dict(kind="pipeline", comp=comp, P=P)
+        if not r["ok"]:
+            ctx.fail("fitting-stage-incomplete:P=%d" % P, "fitting stages of core_maths n=%d on %d ranks (N=%d unique functions) do not complete on every rank: %s %s %s" % (
+                comp, P, nuniq, r["res"]["error"], r["res"]["exit_codes"], fitlib.traceback_tail(r)), rp)
+            continue
+        rows = {}
+        for name, want in (("negloglike_comp%d.dat" % comp, nuniq), ("codelen_comp%d_deriv.dat" % comp, nuniq), ("derivs_comp%d.dat" % comp, nuniq),
+                           ("codelen_matches_comp%d.dat" % comp, nall)):
+            a = np.atleast_2d(np.loadtxt(os.path.join(r["out_dir"], name)))
+            rows[name] = a
+            if a.shape[0] != want:
+                ctx.fail("stage-rows:%s:P=%d" % (name.split("_comp")[0], P), "%s written by %d ranks has %d rows for %d functions" % (name, P, a.shape[0], want), rp)
+        left = os.listdir(r["temp_dir"]) if os.path.isdir(r["temp_dir"]) else []
+        # row i refers to function i: the likelihood of unique i at the parameters of row i is the reported value
+        nl = rows["negloglike_comp%d.dat" % comp]
+        if nl.shape[0] == nuniq:
+            import esr.fitting.likelihood as L
+            lik = object.__new__(L.GaussLikelihood); lik.xvar, lik.yvar, lik.yerr = x, y, s
+            import sympy
+            bad = 0
+            for i in range(nuniq):
+                if not np.isfinite(nl[i, 0]):
+                    continue
+                try:
+                    fcn, eq, _ = L.Likelihood.run_sympify(lik, uniq[i])
+                    k = len([p for p in ("a0", "a1", "a2", "a3") if p in fcn])
+                    syms = [sympy.Symbol("x", positive=True)] + [sympy.Symbol("a%d" % j, real=True) for j in range(k)]
+                    f = sympy.lambdify(syms, eq, modules=["numpy"])
+                    v = lik.negloglike(list(nl[i, 1:1 + k]), f) if k else lik.negloglike([], f)
+                except Exception:
+                    continue
+                if np.isfinite(v) and abs(v - nl[i, 0]) > 1e-4 * max(1.0, abs(v)):
+                    bad += 1
+                    if bad <= 2:
+                        ctx.fail("row-misaligned:negloglike:P=%d" % P, "negloglike row %d (P=%d) reports %.7g but function %d (%s) at the row's parameters gives %.7g" % (i, P, nl[i, 0], i, uniq[i], v), rp)
+        # match index column must point at the unique function recorded in the library
+        cm = rows["codelen_matches_comp%d.dat" % comp]
+        matches = [int(float(t)) for t in libgen.read_lines(libgen.libfile(lib["dir"], comp, "matches")) if t.strip()]
+        if cm.shape[0] == nall and [int(t) for t in cm[:, 2]] != matches:
+            ctx.fail("row-misaligned:codelen_matches:P=%d" % P, "codelen_matches rows written by %d ranks are not in function order (index column differs from matches file)" % P, rp)
+        if ref is None:
+            ref = {k: v.shape for k, v in rows.items()}
+        ctx.sample(dict(pipeline="core_maths n=%d" % comp, P=P, rows={k: int(v.shape[0]) for k, v in rows.items()}, leftover_temp=left[:3], wall_s=round(r["wall_s"], 1)))
+    return n
+
+
 def run(ctx):
     drift = extract.drifted(ctx.proof.get("extract", {}), MODELLED)
     deep = (not ctx.quick) or bool(drift)
     ctx.extra["source_drift"] = drift
     n1, b1 = _corr_split(ctx, 300 if deep else 150, 40 if deep else 24)
     n2, b2 = _corr_getfun(ctx, 120 if deep else 48, 40 if deep else 20)
+    n3 = _constructor_start(ctx, [2, 3, 5] if deep else [2, 4])
+    n4 = _pipeline_rows(ctx, [1, 2, 3, 5, 16, 29] if deep else [1, 3, 17], 3)
+    ctx.extra["runs"] = dict(constructor_startups=n3, pipelines=n4)
     ctx.extra["corr_obligations"] = 2
     ctx.extra["corr_discharged"] = int(b1 == 0) + int(b2 == 0)
     ctx.extra["correspondence"] = dict(split_idx_ops=n1, split_idx_mismatch=b1, get_functions_ops=n2, get_functions_mismatch=b2)
@@ -106,6 +203,18 @@ def replay(ctx, data):
             blocks += list(range(int(i[0]), int(i[1]) + 1)) if len(i) else []
         print("split_idx blocks N=%d P=%d ->" % (N, P), blocks)
         return blocks == list(range(N))
+    if rp["kind"] == "ctor":
+        c2 = common.Ctx("C14", "quick", 0); c2.tmp = ctx.tmp; c2.stage = ctx.stage
+        _constructor_start(c2, [rp["P"]])
+        for f in c2.failures:
+            print(f["what"])
+        return not c2.failures
+    if rp["kind"] == "pipeline":
+        c2 = common.Ctx("C14", "quick", 0); c2.tmp = ctx.tmp; c2.stage = ctx.stage
+        _pipeline_rows(c2, [rp["P"]], rp["comp"])
+        for f in c2.failures:
+            print(f["what"])
+        return not c2.failures
     if rp["kind"] == "get_functions":
         c2 = common.Ctx("C14", "quick", 0); c2.tmp = ctx.tmp; c2.stage = ctx.stage
         _corr_getfun(c2, rp["N"], rp["P"])
